@@ -93,7 +93,6 @@ func genFor(model string) func(t *rapid.T) Case {
 				for k := rapid.IntRange(1, 3).Draw(t, "nsib"); k > 0; k-- {
 					c.Siblings = append(c.Siblings, elig[rapid.IntRange(0, len(elig)-1).Draw(t, "sib")])
 				}
-				c.A.State = simref.StateSpec{}
 				c.Hist = nil
 			}
 		}
@@ -118,7 +117,7 @@ func serve() {
 		fmt.Fprintln(os.Stderr, "serve:", err)
 		os.Exit(3)
 	}
-	out, fin := simref.Run1(a.Model, a.Cell, a.Inputs, simref.InitStates(a.Model, a.Cell))
+	out, fin := simref.Run1(a.Model, a.Cell, a.Inputs, a.State.Resolve(a.Model, a.Cell))
 	var s served
 	for _, o := range out {
 		row := make([]uint64, len(o))
@@ -148,8 +147,9 @@ func checkCalibration(c Case) (r pbt.Result) {
 		cell[pi][0] *= 1 - 1.0/1024
 		simref.Run1(name, cell, c.A.Inputs, simref.InitStates(name, cell))
 	}
-	out, fin := simref.Run1(name, c.A.Cell, c.A.Inputs, simref.InitStates(name, c.A.Cell))
-	in, _ := json.Marshal(simref.CellCase{Model: name, Cell: c.A.Cell, Inputs: c.A.Inputs})
+	// (initial states "from an earlier run" are resolved here, after the variants, and in the fresh process alike)
+	out, fin := simref.Run1(name, c.A.Cell, c.A.Inputs, c.A.State.Resolve(name, c.A.Cell))
+	in, _ := json.Marshal(simref.CellCase{Model: name, Cell: c.A.Cell, Inputs: c.A.Inputs, State: c.A.State})
 	cmd := exec.Command(os.Args[0])
 	cmd.Env = append(os.Environ(), "VERIF_C14_SERVE=1")
 	cmd.Stdin = bytes.NewReader(in)
